@@ -17,8 +17,12 @@ FIRST = {
     "C09-1": "no-failing-input-found", "C01-3": "missed", "C04-4": "missed", "C08-4": "missed",
     "C09-4": "missed", "C08-3": "no-failing-input-found", "C09-3": "no-failing-input-found",
     "C19-3": "no-failing-input-found",
+    "C10-2": "caught marginally at first, missed by a later version of the generators",
+    "C01-5": "missed", "C01-6": "missed by C01 (caught by C08)", "C05-6": "missed", "C06-6": "missed",
+    "C09-6": "missed", "C11-5": "missed", "C15-6": "missed", "C18-6": "missed", "C19-5": "missed",
+    "C03-6": "no-failing-input-found", "C18-5": "no-failing-input-found",
 }
-ALSO = {"C03-1": "C08", "C13-2": "C11"}
+ALSO = {"C03-1": "C08", "C13-2": "C11", "C01-6": "C08"}
 
 
 def run(seed, prop=None):
